@@ -77,7 +77,7 @@ def run_tlc(module_path, cfg, tag, env_extra=None, workers=1, timeout=900, extra
     if env_extra:
         env.update(env_extra)
     cmd = ["timeout", str(timeout), "tlc", "-workers", str(workers), "-metadir", os.path.join(meta, "states"),
-           "-cleanup", "-noGenerateSpecTE", "-config", cfg] + (extra or []) + [os.path.basename(module_path)]
+           "-cleanup", "-noGenerateSpecTE", "-checkpoint", "0", "-config", cfg] + (extra or []) + [os.path.basename(module_path)]
     t = time.time()
     with open(out_path, "w") as f:
         r = subprocess.run(cmd, cwd=d, env=env, stdout=f, stderr=subprocess.STDOUT)
